@@ -129,9 +129,10 @@ def build(verbose=False):
         st["translator_log"] = out.strip()
         rc, out = sh([sys.executable, os.path.join(VERIF, "tools", "py2v_bytes.py"),
                       os.path.join(REPO, "mpgameserver"), os.path.join(COQ, "Gen")])
-        bits = (rc - 2) if rc >= 2 else (3 if rc else 0)
+        bits = (rc - 2) if rc >= 2 else (7 if rc else 0)
         st["translator_ser_ok"] = not (bits & 1)
         st["translator_ws_ok"] = not (bits & 2)
+        st["translator_hdr_ok"] = not (bits & 4)
         st["translator_bytes_log"] = out.strip()
         sh([sys.executable, os.path.join(VERIF, "tools", "gen_dispatch.py")])
         if not os.path.exists(os.path.join(COQ, "Makefile")) or \
@@ -156,8 +157,8 @@ def build(verbose=False):
         else:
             st["driver_ok"] = os.path.exists(drv)
     if verbose:
-        print("build: translator_ok=%s (bytes: ser %s, ws %s) make_ok=%s driver_ok=%s" % (
-            st["translator_ok"], st["translator_ser_ok"], st["translator_ws_ok"], st["make_ok"], st["driver_ok"]))
+        print("build: translator_ok=%s (bytes: ser %s, ws %s, hdr %s) make_ok=%s driver_ok=%s" % (
+            st["translator_ok"], st["translator_ser_ok"], st["translator_ws_ok"], st["translator_hdr_ok"], st["make_ok"], st["driver_ok"]))
     return st
 
 
